@@ -11,3 +11,34 @@ add("C04", "exploration",
 add("C20", "exploration",
     "clone/take are plan operations; every later operation on any object is followed by the full comparison of all objects with their own shadows, so a merge, backfill or drop leaking into a sibling is a content mismatch on the sibling.",
     IOVEC_NOTE, DST, "DESIGN.md 3.2, 5/C20", "simw")
+CODEC_NOTE = ("Trusted: the reference codec (written from the format description, shares no constant with /repo), the scripted reader, hook H2 wrappers (same state machines, caller-chosen limits). "
+              "Bounded: tiny-limit messages <= ~60 bytes, production-limit messages <= 200 KB, <= 8 feeds per side per run. Sampling, not proof.")
+add("C01", "exploration",
+    "Producer, drainer and arena-meddler tasks interleaved by a seeded plan on a real Encoder, then the produced wire re-fed piecewise (borrow/copy/anchored/decode_read with EINTR, short reads, hard errors) to a real Decoder with its own drainer: decoded output must equal the plaintext, for tiny limits (every chunk-boundary interaction in every run) and production limits (lengths around 252, 252+64008, multi-chunk).",
+    CODEC_NOTE, DST, "DESIGN.md 3.2, 5/C01", "simw")
+add("C02", "exploration",
+    "Same runs: the wire as actually delivered (early drains + finish) is scanned for FE FD across drain and slice boundaries, compared with a one-shot encoding and a drain-free replica of the same feeds (split/method/drain independence), and checked against the length bound; long streaming runs scan the streamed output too.",
+    CODEC_NOTE, DST, "DESIGN.md 5/C02", "simw")
+add("C07", "exploration",
+    "Encoder output compared byte for byte with an independent reference encoder (production limits through the public API, so a constant shifted on both sides is visible); Decoder compared with the reference decoder on valid wires, wires corrupted by the plan (truncate, overwrite, bump, append, delete, insert), random strings, structured header-like garbage, and the same wire truncated at every length, under drawn segmentations and input methods.",
+    CODEC_NOTE, DST, "DESIGN.md 5/C07", "simw")
+add("C09", "exploration",
+    "After every feed and drain call: drained-so-far plus finish equals the reference encoding (a drain-free replica separates drain effects from encoding bugs), decoder lag is zero, encoder lag is below one arena chunk + one HCOBS chunk; 64 MiB (quick) to 512 MiB (thorough) streaming runs with drawn piece schedules, payload shapes and drain policies make 'independent of stream length' observable.",
+    CODEC_NOTE + " The lag bound's first term is max(1 MiB, largest single arena allocation rounded to 4 KiB).", DST, "DESIGN.md 5/C09", "simw")
+STREAM_NOTE = ("Trusted: reference tokeniser/decoder, the log builder, FaultyStream. Reader faults are those the property quantifies over (short reads, EINTR); hard reader errors are not injected in deciding runs. "
+               "Bounded: logs up to ~7 records (<= 66 KB each), <= 4 disk faults, block sizes {0,1,2,3,4,5,7,8,16,64,4096,512 KiB}. Sampling, plus exhaustive truncation points inside designated runs.")
+add("C06", "exploration",
+    "A log written by a crashing writer (records, torn records, garbage, missing or repeated delimiters) onto a faulty disk (overwrites, duplicated spans, inserted/deleted bytes, truncation) is read through StreamReader with every block size, short reads and EINTR; the returned (bytes, range) sequence, end of stream and last_sentinel_offset must equal the reference reader's; designated runs re-read the log truncated at every byte (crash-point enumeration).",
+    STREAM_NOTE, DST + "; crash points enumerated exhaustively inside sweep runs", "DESIGN.md 3.2, 5/C06", "simw")
+add("C08", "exploration",
+    "StreamChunker::pump over the same faulty logs and readers: chunks must tile the input, offsets are running totals, no Data is empty or holds FE FD, no FE|FD straddle, Eof only at the true end (and sticky); arenas in drawn states and swapped between pumps.",
+    STREAM_NOTE, DST, "DESIGN.md 5/C08", "simw")
+add("C05", "exploration",
+    "After every operation of the iovec, codec and stream worlds, every slice reachable through a read-side accessor (including clones, taken iovecs, held AnchoredSlices, held chunker chunks, held reader records) must lie inside the caller pool or a chunk the H1 registry reports alive, with the expected content (0xFC poison shows as a mismatch); the registry itself asserts that chunks never overlap. Thorough tier replays the same seeds under AddressSanitizer.",
+    IOVEC_NOTE + " The registry (hook H1) is trusted to see every chunk creation and release.", DST + "; sanitizer replay of the same plans in the thorough tier", "DESIGN.md 3.2, 3.5, 5/C05", "simw")
+add("C10", "exploration",
+    "Every run of the iovec, codec and stream worlds ends by dropping all objects in a drawn order and compares ByteArena::num_live_chunks/bytes and the registry with the run's baseline; long streaming runs with full drains bound live arena bytes by 4 x max(1 MiB, largest allocation) per object while >= 64 MiB flow through.",
+    IOVEC_NOTE, DST, "DESIGN.md 5/C10", "simw")
+add("C17", "exploration",
+    "Scripted readers over {deliver k, Interrupted, EOF, hard error kinds} up to 12 steps x counts x attempt limits x arena states, directly on ByteArena::read_n and through Encoder/Decoder read_n, encode_read, decode_read: result, number of reader calls and buffer length offered per call must equal a ten-line reference of the documented loop; failed reads leave the codec output unchanged (checked by the codec oracles).",
+    IOVEC_NOTE, DST, "DESIGN.md 5/C17", "simw")
